@@ -104,7 +104,7 @@ def _enc_diag(m):
 
 def _enc_write_coils_req(m):
     bits = m['bits']
-    data = pack_bits(bits)
+    data = m['raw_data'] if 'raw_data' in m else pack_bits(bits)
     count = m.get('count', len(bits))
     bc = m.get('byte_count', len(data))
     return u16(m['address']) + u16(count) + u8(bc) + data
@@ -114,7 +114,7 @@ def _enc_write_regs_req(m):
     regs = m['registers']
     count = m.get('count', len(regs))
     bc = m.get('byte_count', 2 * len(regs))
-    return u16(m['address']) + u16(count) + u8(bc) + words(regs)
+    return u16(m['address']) + u16(count) + u8(bc) + (m['raw_data'] if 'raw_data' in m else words(regs))
 
 
 def _enc_addr_count(m):
@@ -153,7 +153,7 @@ def _enc_rw_req(m):
     wc = m.get('write_count', len(regs))
     bc = m.get('byte_count', 2 * len(regs))
     return (u16(m['read_address']) + u16(m['read_count']) + u16(m['write_address'])
-            + u16(wc) + u8(bc) + words(regs))
+            + u16(wc) + u8(bc) + (m['raw_data'] if 'raw_data' in m else words(regs)))
 
 
 def _enc_fifo_req(m):
